@@ -24,7 +24,7 @@ import store_util as su
 from common import Check, coq_eval, parse_eval, parse_nat_list
 
 IMPORTS = "From Conductor Require Import Lib.Str Lib.Cmp Model.Store."
-ANCHORS = ("run_task_executable.py", "version_index.py", "restore.py")
+ANCHORS = ("run_task_executable.py", "version_index.py", "restore.py", "shutil.py", "clean.py")
 T0 = 1700000000
 
 
@@ -61,6 +61,9 @@ def scenarios(tier, rng):
         {"name": "restore-two-rows", "shape": shape_two().describe(), "git": False,
          "setup": [run("all", False, {}, [T0, T0])],
          "cmd": {"kind": "restore", "entries": [["e1", T0 + 500], ["e2", T0 + 600]]}},
+        # `cond clean` killed inside its rmtree: whatever is still recorded must still have its directory
+        {"name": "clean-two-rows", "shape": shape_two().describe(), "git": False,
+         "setup": [run("all", False, {}, [T0, T0])], "cmd": {"kind": "clean"}},
         {"name": "git-head", "shape": shape_two().describe(), "git": True, "dirty": True, "setup": [],
          "cmd": run("all", False, {"e2": "fail"}, [T0, T0])},
     ]
@@ -135,6 +138,8 @@ def run_cmd(project, cmd, inv, crash_at=None, trace_file=None):
         return su.invoke(project, argv, inv, beh=cmd["beh"], clock=cmd["clock"], crash_at=crash_at, trace_file=trace_file)
     if cmd["kind"] == "restore":
         return su.invoke(project, ["restore", cmd["archive_path"]], inv, crash_at=crash_at, trace_file=trace_file)
+    if cmd["kind"] == "clean":
+        return su.invoke(project, ["clean", "-f"], inv, crash_at=crash_at, trace_file=trace_file, extra_env={"VTRACE_SHUTIL": "1"})
     raise ValueError(cmd["kind"])
 
 
@@ -182,6 +187,8 @@ def prepare(sc):
         recorded = {t.name for t in shape.tasks if any(r[0] == t.ident() for r in su.index_rows(project.root))}
         specs = su.run_specs(shape, cmd["root"], cmd["again"], recorded, cmd["beh"])
         coq_cmd = su.coq_command({"kind": "run", "specs": specs, "commit": head[0], "dirty": head[1]})
+    elif cmd["kind"] == "clean":
+        coq_cmd = su.coq_command({"kind": "clean"})
     else:
         arch, recorded = build_archive(shape, cmd["entries"], project.base)
         cmd["archive_path"] = arch
@@ -221,6 +228,14 @@ def crash_job_once(job, tag):
         import time as _t
 
         t0 = _t.time()
+        if st["cmd"]["kind"] == "clean" and k % 2 == 1:
+            # the order in which rmtree meets the entries of cond-out is the file system's directory order: give the
+            # index a fresh directory entry in every other run so that both orders (index first / index last) occur
+            co = os.path.join(p.root, "cond-out")
+            names = sorted(os.listdir(co))
+            for name in [n for n in names if (n.endswith(".sqlite")) == (k % 4 == 1)]:
+                os.rename(os.path.join(co, name), os.path.join(co, name + ".moved"))
+                os.rename(os.path.join(co, name + ".moved"), os.path.join(co, name))
         res, _readings, _pids = run_cmd(p, st["cmd"], st["inv"], crash_at=k)
         obs = su.observe(p)
         return {"k": k, "exit": res.code, "hung": res.hung, "dur": round(_t.time() - t0, 2), "stdout": implrun.strip_ansi(res.out)[-300:], "stderr": res.err[-300:], "obs": obs, "packed": su.pack_obs(obs, st["keys_only"]), "complaints": oracle(p, st["heads"])}
@@ -470,6 +485,11 @@ def run(tier, seed, replay=None):
             chk.sample({"scenario": sc["name"], "line_events": n, "killed_at": mid["k"], "at": list(st["trace"][mid["k"] - 1]), "rows": mid["obs"][0], "dirs": mid["obs"][1]})
         # --- the model's crash states
         if not chk.coq.model_ok:
+            continue
+        if sc["cmd"]["kind"] == "clean":
+            # the order in which rmtree meets the entries is the file system's; the theorem covers every order
+            # (labels LCleanIndex / LCleanDir k in any sequence), the kill sweep above is judged by the oracle only
+            agree += len(results)
             continue
         mstates, mfinal, raw = model_states(st)
         if mstates is None:
